@@ -247,7 +247,15 @@ func (tr *Trans) havocCall(key string, args []Val, resT types.Type, in ssa.Instr
 			}
 		}
 	}
+	prev := tr.st
 	tr.st = tr.g.havocAll(tr.st, esc)
+	if !strings.Contains(key, repoModule) {
+		// code outside the repository cannot reach cedar's unexported mutexes: ghost lock state survives (assumption, listed)
+		for _, lk := range []string{"lock$sync.Mutex", "lock$sync.RWMutex.w", "lock$sync.RWMutex.r"} {
+			tr.st.set(lk, prev.get(tr.e, lk, arrSort(SInt, SInt)))
+		}
+		tr.e.note("assumed: calls into code outside the repository (%s) do not lock or unlock cedar's mutexes", key)
+	}
 	return tr.freshVal(resT, "res", tr.st, tr.rc)
 }
 
@@ -589,6 +597,25 @@ func (tr *Trans) targetsOf(env *Env, e ast.Expr) ([]target, bool) {
 				ts[k].cond = c
 			}
 			return ts, false
+		case "anylock":
+			// anylock(): the ghost lock state of every sync.Mutex (callee locks and unlocks entries it finds)
+			return []target{{key: "lock$sync.Mutex", sort: arrSort(SInt, SInt), whole: true, desc: src}}, false
+		case "lock":
+			// lock(m): the ghost lock state of the mutex m points to
+			v := env.eval(x.Args[0])
+			pt, ok := under(v.T).(*types.Pointer)
+			if !ok || len(v.C) != 1 {
+				env.fail("lock(): not a pointer to a mutex")
+				return nil, true
+			}
+			switch typeKey(pt.Elem()) {
+			case "sync.Mutex":
+				return []target{{key: "lock$sync.Mutex", sort: arrSort(SInt, SInt), ref: v.C[0], desc: src}}, false
+			case "sync.RWMutex":
+				return []target{{key: "lock$sync.RWMutex.w", sort: arrSort(SInt, SInt), ref: v.C[0], desc: src}, {key: "lock$sync.RWMutex.r", sort: arrSort(SInt, SInt), ref: v.C[0], desc: src}}, false
+			}
+			env.fail("lock(): unsupported mutex type")
+			return nil, true
 		case "when":
 			// when(cond, target): conditional frame
 			c := env.evalBool(x.Args[0])
